@@ -12,7 +12,7 @@ transition(s) of that thread that can explain it (invisible steps — tests, inc
 the thread's next event, which is when they happen under the scheduler), each must be enabled in the abstract state, and
 after each event the abstract shared variables must equal the real ones and the abstract counts must equal the number of
 threads at each program point.  Output: one line per run, `ok …` with what the model saw, or `REJECT …` at the first event the
-model cannot take.
+model cannot take (with what the model saw up to that event).
 
 Input lines
 ```
@@ -267,7 +267,7 @@ def handleLine (cur : Option Run) (line : String) : Option Run × Option String 
     | none => (none, some "REJECT ? END without RUN")
     | some r =>
       match r.failed with
-      | some msg => (none, some s!"REJECT {r.id} {msg}")
+      | some msg => (none, some s!"REJECT {r.id} {summary r} :: {msg}")
       | none => (none, some s!"ok {r.id} {summary r}")
   | "E" :: tid :: cache :: kind :: name :: arg :: obs =>
     match cur with
